@@ -305,8 +305,25 @@ def sc_inactivity_boundary(name, origin, gap):
     return Scenario(name, lines)
 
 
+def sc_state_timeout_boundary(name, origin, gap, second):
+    """the per-state timeout of the mapping engine at the second boundary: the Discover arrives in the last
+    milliseconds of a second (its reply pause carries the clock into the next), the following frame `gap' ms later"""
+    lines = ["CLOCK %d" % origin, "NEW"]
+    f = discover(0, key_mac(1), gen=1, seq=1, stations=[key_mac(9)])
+    lines.append("GLUE %d 0 %s" % (len(f), f.hex()))
+    lines.append("ADV %d" % gap)
+    lines.append("GLUE %d 0 %s" % (len(second), second.hex()))
+    lines += ["TICK", "ADV 1000", "TICK"]
+    return Scenario(name, lines)
+
+
 def boundary_family(prefix, tier):
     scs = []
+    m = key_mac(1)
+    for origin in ((995, 123456991) if tier == "quick" else (990, 995, 999, 1000, 123456991)):
+        for gap in ((3990, 4990, 5990) if tier == "quick" else (3985, 3990, 3995, 4000, 4985, 4990, 4995, 5000, 5985, 5990, 5995, 6000)):
+            for j, second in enumerate((query(m, OWN, seq=5), emit(m, OWN, [(1, 0, OWN, key_mac(30))], seq=6), discover(0, m, gen=1, seq=2, stations=[key_mac(9)]))):
+                scs.append(sc_state_timeout_boundary("%s-stboundary-%d-%d-%d" % (prefix, origin, gap, j), origin, gap, second))
     for origin in ((995, 999, 123456991) if tier == "quick" else (990, 991, 995, 998, 999, 1000, 123456991, 4294966995)):
         for gap in ((28985, 28995, 29990) if tier == "quick" else (28000, 28980, 28985, 28990, 28995, 29000, 29005, 29985, 29990, 29995, 30000, 30010)):
             scs.append(sc_inactivity_boundary("%s-boundary-%d-%d" % (prefix, origin, gap), origin, gap))
